@@ -352,6 +352,7 @@ def check_limits_and_pickling(prog, ctx, car):
         ctx.ok("C14.D6", "package::no-pickling-hooks", "sparseSpACE/*", "no class defines __getstate__/__setstate__/__reduce__/__deepcopy__: dill stores the whole __dict__")
     check_area_value_reset(prog, ctx, "C14.D7")
     check_reentry_keeps_evolved_state(prog, ctx)
+    check_accumulators_not_shared(prog, ctx)
     # the limits of THIS call reach the loop (rule shared with C13.D7)
     from .C13 import check_forwarding
     check_forwarding(prog, ctx, rule="C14.D5", only_limits=True)
@@ -419,3 +420,29 @@ def check_area_value_reset(prog, ctx, rule):
               "an area's partial result is re-assigned on every path before the area is evaluated",
               "Integration.area_preprocessing does not re-assign the area's value on every path: an area that is evaluated again "
               "(after a stop and continue, or a recalculation) keeps its old contribution and adds the new one")
+
+
+def check_accumulators_not_shared(prog, ctx, rule="C14.D9"):
+    """D9: the per-interval accumulators that steer the refinement are separate objects.  A method that keeps its argument (`self.A = p`) and
+    later updates it in place (`self.A += ...`) makes the caller's object the accumulator; a loop that hands ONE object to several such
+    calls lets all intervals accumulate into the same array, so the refinement that follows (and everything a continued run does) depends
+    on the order and number of evaluations instead of on the refinement alone."""
+    ab = R.absorbing_methods(prog)
+    n = 0
+    for name, lst in sorted(ab.items()):
+        for (m, p_, a_) in lst:
+            ctx.touch(m)
+    for fi in sorted(prog.functions.values(), key=lambda f: f.qual):
+        calls = [x for x in walk_local(fi.node) if isinstance(x, ast.Call) and isinstance(x.func, ast.Attribute) and x.func.attr in ab]
+        if not calls:
+            continue
+        ctx.touch(fi)
+        shared = R.shared_accumulator_arguments(prog, fi, ab)
+        for k, x in enumerate(calls):
+            n += 1
+            bad = [(c_, nm, m) for (c_, nm, m) in shared if c_ is x]
+            ctx.check(not bad, rule, R.key_of(fi, "own-object-per-call:%s#%d" % (x.func.attr, k)), fi.loc(x),
+                      "%s(...) receives an object of its own" % x.func.attr,
+                      "`%s` is called in a loop with `%s`, which the loop does not bind to a new object per iteration, and %s keeps its argument and "
+                      "adds to it in place: all receivers share one accumulator" % (src(x), bad[0][1] if bad else "", bad[0][2].qual if bad else ""))
+    ctx.floor(rule, n, 1, "calls of methods that keep and update their argument")
